@@ -189,6 +189,23 @@ theorem state_keys_routed :
     judged.all (fun t => t.written.all fun k => k.sect == .work || (fieldOf k).isNone ||
       (entriesOf t).any (fun e => some e.field == fieldOf k && e.route == some e.field)) = true := by decide +kernel
 
+/-! ## flags that clear each other in the reader (`-dissolve_only` / `-precipitate_only`) -/
+
+/-- wherever a reader case clears another member after reading a true value, the clearing is mutual and both flags are written -/
+theorem clobbers_mutual : allTables.all clobbersMutual = true := by decide +kernel
+
+/-- two mutually exclusive flags survive the reader's mutual clearing exactly when they are not both set — which the clearing itself
+guarantees for every state that came through the reader -/
+theorem exclusive_flags_restored (a b : Bool) (h : (a && b) = false) : readExclusive a b = (a, b) := by
+  cases a <;> cases b <;> simp_all [readExclusive]
+
+/-- the excluded state is really not restored (the writer prints both, the second line clears the first) -/
+example : readExclusive true true = (false, true) := by decide
+
+/-- non-vacuity: the pure-phase component table has such a pair -/
+example : clobberPairs tabPPassemblageComp = [("dissolve_only", "precipitate_only"), ("precipitate_only", "dissolve_only")] := by
+  decide +kernel
+
 /-! ## binary serialisation: `Serialize` / `Deserialize` of every class -/
 
 /-- over the push/pop sequences regenerated from the current source of all 20 serialised classes: `Deserialize` pops exactly
@@ -280,8 +297,8 @@ example :
     let t (v : List String) : ClassTab :=
       { name := "iso", keyword := "", vopts := v,
         written := [⟨"ratio_uncertainty", ["ratio_uncertainty"], .scalar, .state, .always, "", 0⟩],
-        cases := [⟨[4], ["ratio_uncertainty_defined"], .value, "", 0, [], false, false⟩,
-                  ⟨[5], ["ratio_uncertainty"], .value, "", 0, [], false, false⟩],
+        cases := [⟨[4], ["ratio_uncertainty_defined"], .value, "", 0, [], false, false, []⟩,
+                  ⟨[5], ["ratio_uncertainty"], .value, "", 0, [], false, false, []⟩],
         unknownReturns := true, usesLastLine := false, required := [] }
     noCrossWiring (t ["a", "b", "c", "ratio", "ratio_uncertainty_defined", "ratio_uncertainty"]) = false ∧
     noCrossWiring (t ["a", "b", "c", "ratio", "x_defined", "ratio_uncertainty"]) = true := by
